@@ -331,7 +331,7 @@ class Runner:
             for k, v in s["labels"].items(): labels[k] = labels.get(k, 0) + v
             for k, v in s["counters"].items(): counters[k] = counters.get(k, 0) + v
             for k, v in s["excluded"].items(): excluded[k] = excluded.get(k, 0) + v
-            samples += s["samples"][:2]
+            samples += s["samples"][-2:]
         starved = []   # distribution floors are stated for the random generator (rapidcheck shards); the coverage-guided corpus has its own distribution
         rcs = [s for s in stats if s.get("engine") != "libfuzzer"]; rc_ev = sum(s["evaluations"] for s in rcs); rc_lab = {}
         for s in rcs:
@@ -342,7 +342,7 @@ class Runner:
         doc = {
             "property_id": self.pid, "tier": self.tier, "seed": self.seed, "level": self.cfg.get("level", "exploration"),
             "coverage": {
-                "evaluations": ev + n_reg, "distinct_nontrivial": len(hashes), "rule": rule, "samples": samples[:8] or ["(no sample)"],
+                "evaluations": ev + n_reg, "distinct_nontrivial": len(hashes), "rule": rule, "samples": (samples[::max(1, len(samples) // 8)][:8]) or ["(no sample)"],
                 "generated": ev, "regression_replays": n_reg, "discarded": disc, "class_histogram": dict(sorted(labels.items())),
                 "oracle_evaluations": dict(sorted(counters.items())), "excluded_known_finding_classes": excluded,
                 "max_error_over_tolerance": mr, "generator_starved": starved, "notes": self.notes,
